@@ -1,16 +1,22 @@
 package args
 
 import (
+	"context"
+	"errors"
 	"fmt"
+	"io"
 	"os"
 	"os/exec"
 	"path/filepath"
 	"strings"
 
 	"github.com/spf13/pflag"
+	"mvdan.cc/sh/v3/expand"
+	"mvdan.cc/sh/v3/interp"
 	"mvdan.cc/sh/v3/shell"
 	"mvdan.cc/sh/v3/syntax"
 
+	"github.com/go-task/task/v3/internal/execext"
 	zz "github.com/go-task/task/v3/internal/zzsym"
 )
 
@@ -32,7 +38,10 @@ func zzArgsLenAtDash(f *pflag.FlagSet) int { return zzDash }
 // is applied to each argument separately.
 //
 //gosmt:stub mvdan.cc/sh/v3/syntax.Quote
-func zzQuote(s string, lang syntax.LangVariant) (string, error) { return "'" + s + "'", nil }
+func zzQuote(s string, lang syntax.LangVariant) (string, error) {
+	zzQuoteLang = lang
+	return "'" + s + "'", nil
+}
 
 const zzArgAlphabet = "a='\"$\\ *{"
 
@@ -237,3 +246,90 @@ func zzInitTarget(pos string) string {
 }
 
 func zzExists(p string) bool { _, err := os.Stat(p); return err == nil }
+
+// ---- the shell dialect: commands must be parsed in the dialect the arguments are quoted for --
+
+var (
+	zzQuoteLang  = syntax.LangVariant(-1)
+	zzParserLang = syntax.LangBash // mvdan/sh's default when no Variant option is given
+)
+
+//gosmt:stub mvdan.cc/sh/v3/syntax.Variant
+func zzVariant(l syntax.LangVariant) syntax.ParserOption {
+	zzParserLang = l
+	return func(*syntax.Parser) {}
+}
+
+//gosmt:stub mvdan.cc/sh/v3/syntax.NewParser
+func zzNewParser(options ...syntax.ParserOption) *syntax.Parser {
+	for _, o := range options {
+		o(nil)
+	}
+	return &syntax.Parser{}
+}
+
+//gosmt:stub (*mvdan.cc/sh/v3/syntax.Parser).Parse
+func zzParse(p *syntax.Parser, r io.Reader, name string) (*syntax.File, error) {
+	return nil, errors.New("zz: parsing is not encoded")
+}
+
+//gosmt:stub mvdan.cc/sh/v3/interp.New
+func zzInterpNew(opts ...interp.RunnerOption) (*interp.Runner, error) { return nil, nil }
+
+//gosmt:stub mvdan.cc/sh/v3/interp.Params
+func zzInterpParams(args ...string) interp.RunnerOption { return nil }
+
+//gosmt:stub mvdan.cc/sh/v3/interp.Env
+func zzInterpEnv(env expand.Environ) interp.RunnerOption { return nil }
+
+//gosmt:stub mvdan.cc/sh/v3/interp.ExecHandlers
+func zzInterpExecHandlers(m ...func(next interp.ExecHandlerFunc) interp.ExecHandlerFunc) interp.RunnerOption {
+	return nil
+}
+
+//gosmt:stub mvdan.cc/sh/v3/interp.OpenHandler
+func zzInterpOpenHandler(f interp.OpenHandlerFunc) interp.RunnerOption { return nil }
+
+//gosmt:stub mvdan.cc/sh/v3/interp.StdIO
+func zzInterpStdIO(in io.Reader, out, err io.Writer) interp.RunnerOption { return nil }
+
+//gosmt:stub mvdan.cc/sh/v3/interp.Dir
+func zzInterpDir(path string) interp.RunnerOption { return nil }
+
+//gosmt:stub mvdan.cc/sh/v3/expand.ListEnviron
+func zzListEnviron(pairs ...string) expand.Environ { return nil }
+
+//gosmt:stub os.Environ
+func zzOsEnviron() []string { return []string{"HOME=/h"} }
+
+//gosmt:stub os.Getwd
+func zzGetwd() (string, error) { return "/wd", nil }
+
+// ZZ_C19_Dialect: the quoting of forwarded arguments and the parsing of commands
+// use the same shell dialect (mvdan/sh's Quote and Parser are stubs that record it),
+// with and without shopt options on the task.
+func ZZ_C19_Dialect() {
+	if zz.Native() {
+		// natively the consequence is observed: a quoted control byte survives a real command
+		v := "tab\there"
+		q, _ := syntax.Quote(v, syntax.LangBash)
+		var out strings.Builder
+		err := execext.RunCommand(context.Background(), &execext.RunCommandOptions{Command: "printf %s " + q, Stdout: &out, Stderr: io.Discard})
+		zz.Assert(err == nil && out.String() == v, "commands-are-parsed-in-the-dialect-arguments-are-quoted-for")
+		return
+	}
+	zzQuoteLang = syntax.LangVariant(-1)
+	zzParserLang = syntax.LangBash
+	zzSetArgv([]string{"t"}, []string{zz.Str("arg", 2, zzArgAlphabet)}, true)
+	_, _, _ = Get()
+	opts := &execext.RunCommandOptions{Command: "x", Stdout: io.Discard, Stderr: io.Discard}
+	if zz.Bool("task_has_shopt") {
+		opts.BashOpts = []string{"globstar"}
+	}
+	_ = execext.RunCommand(context.Background(), opts)
+	zz.Assert(zzQuoteLang == zzParserLang, "commands-are-parsed-in-the-dialect-arguments-are-quoted-for")
+	if zz.Twin() {
+		zz.Assert(false, "twin")
+	}
+	zz.Reach("end")
+}
